@@ -82,6 +82,7 @@ type Val struct {
 	Iter  *IterRef
 	Nil   string // for kPtr on symbolic params: Bool term "is nil" ("" = known non-nil)
 	Bound *Val // bound method receiver
+	Frozen string // kStore: term fixed at the state in which it was evaluated (old(...))
 }
 
 func termVal(t types.Type, sort, term string) Val { return Val{K: kTerm, Typ: t, Sort: sort, T: term} }
